@@ -744,7 +744,7 @@ func c16Corpus(c *Ctx) {
 // ---- end-to-end parent ---------------------------------------------------------------------------------
 
 func c16Scenarios(c *Ctx) []c16Scen {
-	moments := []string{"idle", "exchange", "gate", "channel", "queued", "reassembly"}
+	moments := []string{"idle", "exchange", "gate", "channel", "queued", "reassembly", "offhours"}
 	sides := []string{"client", "server", "remove", "both-cs", "both-sc", "ctx-client", "listener", "srvclose", "ctx-server", "fleet"}
 	var res []c16Scen
 	i := 0
@@ -753,6 +753,15 @@ func c16Scenarios(c *Ctx) []c16Scen {
 			callers := []int{1, 2, 3, 4}[(i+int(c.Seed))%4]
 			repeat := []int{0, 1, 2}[(i/2+int(c.Seed))%3]
 			clients := 1 + (i+int(c.Seed)/2)%2
+			if m == "offhours" {
+				// the client does not poll outside its work hours: only a close on the client side can be
+				// expected to go through (the server cannot reach it)
+				if s == "client" || s == "ctx-client" {
+					res = append(res, c16Scen{m, s, callers, repeat, 1})
+					i++
+				}
+				continue
+			}
 			if s == "fleet" {
 				if m != "idle" {
 					continue
@@ -775,12 +784,13 @@ func c16Scenarios(c *Ctx) []c16Scen {
 }
 
 type c16ChildRes struct {
-	sc    c16Scen
-	seed  uint64
-	out   string
-	err   error
-	tmo   bool
-	fails [][2]string
+	unconfirmed int // liveness failures of a first run that two re-runs of the scenario did not show again
+	sc          c16Scen
+	seed        uint64
+	out         string
+	err         error
+	tmo         bool
+	fails       [][2]string
 }
 
 func c16E2EParent(c *Ctx) {
@@ -813,7 +823,35 @@ func c16E2EParent(c *Ctx) {
 		go func(ji int, j job) {
 			defer wg.Done()
 			defer func() { <-sem }()
-			results[ji] = c16RunChild(c, j.sc, j.sd, ji)
+			res := c16RunChild(c, j.sc, j.sd, ji)
+			// an end-to-end run samples ONE real schedule over real sockets and timers. A liveness failure
+			// (something did not happen within the budget) that does not recur when the same scenario is
+			// run again twice is not reported: the systematic part of this check is the schedule replay
+			// above, and a change that breaks a scenario outright fails every time. Crashes, time-outs of
+			// the whole child and the diagnosed findings are never second-guessed.
+			if len(res.fails) > 0 && !res.tmo && res.err == nil && strings.Contains(res.out, "\nDONE") {
+				soft := true
+				for _, f := range res.fails {
+					k := f[0]
+					if !(strings.HasPrefix(k, "hang:") || strings.HasPrefix(k, "state:") || strings.HasPrefix(k, "waiter:") || strings.HasPrefix(k, "listed:") || strings.HasPrefix(k, "leak:")) {
+						soft = false
+					}
+				}
+				if soft {
+					again := 0
+					for _, d := range []uint64{7, 13} {
+						r2 := c16RunChild(c, j.sc, j.sd+d, ji+100000+int(d))
+						if len(r2.fails) > 0 || r2.tmo || r2.err != nil {
+							again++
+						}
+					}
+					if again == 0 {
+						res.unconfirmed = len(res.fails)
+						res.fails = nil
+					}
+				}
+			}
+			results[ji] = res
 		}(ji, j)
 	}
 	wg.Wait()
@@ -838,6 +876,9 @@ func c16E2EParent(c *Ctx) {
 		case res.err != nil || !strings.Contains(res.out, "\nDONE"):
 			key := "crash:e2e:" + c16CrashSig(res.out)
 			c.Fail("e2e:panic", key, "end-to-end scenario "+j.sc.String()+": child died: "+tail(res.out, 1800), in)
+		}
+		if res.unconfirmed > 0 {
+			c.Count("e2e:unconfirmed-liveness-failure:" + j.sc.Moment + "/" + j.sc.Side)
 		}
 		c.Eval(true, "e2e "+j.sc.String()+" "+strconv.FormatUint(j.sd, 10))
 		c.Count("e2e:moment:" + j.sc.Moment)
